@@ -48,6 +48,8 @@ def minieval(node: ast.AST, env: Dict[str, object]):
             return l // r
         if isinstance(node.op, ast.BitAnd):
             return l & r
+        if isinstance(node.op, ast.Pow) and isinstance(r, int) and 0 <= r <= 128:
+            return l ** r
         raise Unknown(key)
     if isinstance(node, ast.UnaryOp):
         v = minieval(node.operand, env)
